@@ -348,7 +348,7 @@ func (s *appStream) signRelayerTx(r *tr.Rng, o *tr.Op, height int64, seqUsed map
 	cls := ""
 	guardy := s.profile == "app-guard"
 	switch c := r.Intn(100); {
-	case c >= 88 && guardy && s.formerProp != "" && s.formerProp != v.rel.Proposer && s.members[s.formerProp] != nil && !s.forceExpiring && !s.forcePlain:
+	case c >= 80 && guardy && s.formerProp != "" && s.formerProp != v.rel.Proposer && s.members[s.formerProp] != nil && !s.forceExpiring && !s.forcePlain:
 		// the proposer of the previous epoch: its message names itself and is validly signed, but it is not the CURRENT proposer
 		m := s.members[s.formerProp]
 		priv, signerAddr, cls = m.Acc, m.Addr, "/signer=former-proposer"
@@ -595,7 +595,7 @@ func (s *appStream) genBlock(r *tr.Rng) {
 		}
 		// mempool admission (CheckTx) of some of the block's transactions
 		for _, p := range ptxs {
-			if r.Chance(40) {
+			if r.Chance(40) || strings.Contains(p.op.Cls, "former-proposer") {
 				s.checkTx(p)
 			}
 		}
